@@ -11,14 +11,15 @@ pub fn info() -> PropInfo {
     PropInfo {
         id: "C12",
         level: "exploration",
-        rule: "proptest: claims x strategy (no holder key) x selection; each case issued with decoys on AND off. Structural oracle: with decoys every object of payload and of every disclosed value (placeholders excepted) has >=1 digest matching no disclosure; all digests pairwise distinct and digest-shaped; without decoys every digest matches; holder selects the same node set and verifier returns equal claims (== view) in both. Order-leak oracle (1 case in 8): the same claims issued 240 times; violated only if >=200 _sd lists with >=2 real digests ALL show member order (or reverse), or >=200 decoy-carrying lists ALL put decoys after (or before) the real digests: false-alarm probability <= 2^-200 resp. 3^-200 for sorted or shuffled lists. Non-trivial: both issuances succeeded. Distinct: hash of the case JSON.",
+        rule: "proptest: claims x strategy (no holder key) x selection; each case issued with decoys on AND off. Structural oracle: with decoys every object of payload and of every disclosed value (placeholders excepted) has >=1 digest matching no disclosure; all digests pairwise distinct and digest-shaped; without decoys every digest matches; holder selects the same node set and verifier returns equal claims (== view) in both. Order-leak oracle (1 case in 5): the same claims issued 240 times; violated only if >=200 _sd lists with >=2 real digests ALL show member order (or reverse), or >=200 decoy-carrying lists ALL put decoys after (or before) the real digests: false-alarm probability <= 2^-200 resp. 3^-200 for sorted or shuffled lists. Non-trivial: both issuances succeeded. Distinct: hash of the case JSON.",
         assumptions: &["statistical clause: false-alarm probability below 2^-200 per evaluated case for any order that is independent of member order and of decoy-ness"],
         needs_mock: false,
+        rounds: 2,
     }
 }
 
 pub fn strategy() -> BoxedStrategy<Case> {
-    (issue_spec_strategy(ClaimCfg::SHORT_F64, HONEST_PATHS, Just(HolderKey::None).boxed()), choices_strategy(), prop::bool::weighted(0.125))
+    (issue_spec_strategy(ClaimCfg::SHORT_F64, HONEST_PATHS, Just(HolderKey::None).boxed()), choices_strategy(), prop::bool::weighted(0.2))
         .prop_map(|(issue, ch, rep)| {
             let selection = selection_for(&issue, &ch, SelOpts { allow_null: false });
             C12Case { issue, selection, repeat: if rep { 240 } else { 0 } }
@@ -27,5 +28,5 @@ pub fn strategy() -> BoxedStrategy<Case> {
 }
 
 pub fn plan(tier: Tier) -> Plan<Case> {
-    Plan { strategy: strategy(), check, shrink_iters: 300, decode_bytes: None, watchdog_secs: 600, cases: match tier { Tier::Quick => 6_000, Tier::Thorough => 300_000 } }
+    Plan { strategy: strategy(), check, shrink_iters: 300, decode_bytes: None, watchdog_secs: 600, cases: match tier { Tier::Quick => 8_000, Tier::Thorough => 300_000 } }
 }
